@@ -235,7 +235,7 @@ func (c *Enc) zero(t types.Type) Term {
 	case SInt:
 		return IntLit(0)
 	case SSlice:
-		return Term{"nilslice", SSlice}
+		return Term{"(mk-slice 0 0 0 0)", SSlice}
 	case SAny:
 		return Term{"any_nil", SAny}
 	case SUnit:
@@ -255,6 +255,10 @@ func (c *Enc) boxCtor(t types.Type) string {
 	if _, ok := c.boxes[key]; !ok {
 		c.boxes[key] = c.sortOf(t)
 		c.boxOrder = append(c.boxOrder, key)
+		if c.boxTypes == nil {
+			c.boxTypes = map[string]types.Type{}
+		}
+		c.boxTypes[key] = t
 	}
 	return "box_" + key
 }
@@ -312,6 +316,9 @@ type Enc struct {
 	assertBlk   []*ssa.BasicBlock
 	curBlk      *ssa.BasicBlock
 	relMemo     map[*ssa.BasicBlock]map[*ssa.BasicBlock]bool
+	topAtRefs   map[string][]Term
+	jsonSeen    map[string]bool
+	boxTypes    map[string]types.Type
 }
 
 func newEnc(eng *Engine, top *ssa.Function) *Enc {
@@ -617,6 +624,15 @@ func (c *Enc) elemsOf(inner, off, ln Term, es Sort) Term {
 	c.elemsSeen[t.S] = true
 	empty := fmt.Sprintf("((as const %s) false)", setSort)
 	c.assert(Term{fmt.Sprintf("(=> (<= %s 0) (= %s %s))", ln.S, t.S, empty), SBool})
+	// unfolding of a window that is written as n+1: elemsOf(a, off, n+1) = elemsOf(a, off, n) ∪ {a[off+n]}
+	if strings.HasPrefix(ln.S, "(+ ") && strings.HasSuffix(ln.S, " 1)") && !strings.Contains(inner.S, "(store ") {
+		x := Term{strings.TrimSuffix(strings.TrimPrefix(ln.S, "(+ "), " 1)"), SInt}
+		if balancedSingle(x.S) {
+			prev := c.elemsOf(inner, off, x, es)
+			last := Select(inner, Add(off, x), es)
+			c.assert(Implies(Le(IntLit(0), x), Eq(t, Store(prev, last, True))))
+		}
+	}
 	if !c.option("elems-index") {
 		return t
 	}
